@@ -8,10 +8,18 @@
 (*   I + L + A <= M; every literal <= 2M+1; input, latch and and-gate      *)
 (*   output literals even and non-zero; section sizes = header counts;     *)
 (*   binary deltas never larger than the code they are subtracted from.    *)
-(* Read(v, binary) is <<"ok", items>> or <<"bad", items so far>>; items    *)
-(* are in the encoding of the harness (numbers as decimal strings).        *)
-(* The reference is only consulted for inputs the real parser ACCEPTS      *)
-(* (C06) or that the real writer PRODUCED (C03).                           *)
+(* ReadLoc(v, binary, ty) is <<"ok", items>> or <<"bad", items so far, lo, *)
+(* hi>>; items are in the encoding of the harness (numbers as decimal      *)
+(* strings).  The reference reads left to right and stops at the FIRST     *)
+(* OFFENDING TOKEN: the first token at which no well-formed file can       *)
+(* continue.  lo is the offset of that token and hi the end of the run of  *)
+(* non-blank bytes starting there: a syntax error must be reported at a    *)
+(* position in lo..hi (property C08), a file is rejected iff the reference *)
+(* finds an offence (C06 and its converse), and the items handed out       *)
+(* before the error are the ones read before the offence.                  *)
+(* `ty` is the literal type of the parser: M <= (MAX - 1) / 2; every other *)
+(* number has to fit usize (u64).  Binary 7-bit codes are at most 8 bytes  *)
+(* long (what the implementation supports).                                *)
 (***************************************************************************)
 EXTENDS Integers, Sequences, TextScan
 
@@ -51,157 +59,223 @@ Num(v, p) ==
 Is(v, p, b) == At(v, p) = b
 SP == 32
 NL == 10
+UsizeMax == <<1, 8, 4, 4, 6, 7, 4, 4, 0, 7, 3, 7, 0, 9, 5, 5, 1, 6, 1, 5>>
+\* (L::MAX_CODE - 1) / 2
+MaxVarOf(ty) == CASE ty = "u8" -> <<1, 2, 7>> [] ty = "u16" -> <<3, 2, 7, 6, 7>> [] ty = "u32" -> <<2, 1, 4, 7, 4, 8, 3, 6, 4, 7>>
+                  [] OTHER -> <<9, 2, 2, 3, 3, 7, 2, 0, 3, 6, 8, 5, 4, 7, 7, 5, 8, 0, 7>>
 
-\* "n\n" : <<ok, digits, next>>
-NumLine(v, p) ==
-  Let(Num(v, p), LAMBDA n : IF n[1] # <<>> /\ Is(v, n[2], NL) THEN <<TRUE, n[1], n[2] + 1>> ELSE <<FALSE, <<>>, p>>)
+\* the offending token at p: the run of non-blank bytes starting there (possibly empty)
+IsSep(b) == b \in {32, 10, 9, 13, None}
+RECURSIVE RunEnd(_, _)
+RunEnd(v, p) == IF IsSep(At(v, p)) THEN p ELSE RunEnd(v, p + 1)
+Bad(acc, v, p) == <<FALSE, acc, p, RunEnd(v, p)>>
 
-\* header: tag, then 5..9 space-separated numbers, newline.  <<ok, fields (9 digit seqs), next>>
-RECURSIVE HdrFields(_, _, _)
-HdrFields(v, p, acc) ==
-  IF Is(v, p, NL) THEN (IF Len(acc) >= 5 THEN <<TRUE, acc, p + 1>> ELSE <<FALSE, acc, p>>)
-  ELSE IF Is(v, p, SP) /\ Len(acc) < 9
-    THEN Let(Num(v, p + 1), LAMBDA n : IF n[1] = <<>> THEN <<FALSE, acc, p>> ELSE HdrFields(v, n[2], Append(acc, n[1])))
-    ELSE <<FALSE, acc, p>>
+\* a number token that fits usize and is at most `limit`: <<ok, digits, end>>
+NumTok(v, p, limit) ==
+  Let(Num(v, p), LAMBDA n : IF n[1] = <<>> \/ ~Leq(n[1], UsizeMax) \/ ~Leq(n[1], limit) THEN <<FALSE, <<>>, p>> ELSE <<TRUE, n[1], n[2]>>)
+\* a literal: with `def` it must be even and non-zero
+LitTok(v, p, maxlit, def) ==
+  Let(NumTok(v, p, maxlit), LAMBDA n : IF n[1] /\ def /\ (IsZero(n[2]) \/ ~IsEven(n[2])) THEN <<FALSE, <<>>, p>> ELSE n)
+
+\* header: tag, " M I L O A", then up to four more " count", newline.  <<TRUE, fields (9 digit seqs), next>> | Bad
 Pad9(f) == f \o [i \in 1..(9 - Len(f)) |-> <<0>>]
-Header(v, tag) ==
-  IF FixedEnd(v, 0, tag) # 3 THEN <<FALSE, <<>>, 0>>
-  ELSE Let(HdrFields(v, 3, <<>>), LAMBDA h : IF h[1] THEN <<TRUE, Pad9(h[2]), h[3]>> ELSE <<FALSE, <<>>, 0>>)
+RECURSIVE HdrFields(_, _, _, _)
+HdrFields(v, p, acc, ty) ==
+  \* p: just behind the previous field
+  IF Len(acc) >= 5 /\ Is(v, p, NL) THEN <<TRUE, Pad9(acc), p + 1>>
+  ELSE IF Len(acc) = 9 \/ ~Is(v, p, SP) THEN Bad(<<>>, v, p)
+  ELSE LET k == Len(acc) + 1
+           limit == CASE k = 1 -> MaxVarOf(ty)
+                      [] k = 2 -> acc[1]
+                      [] k = 3 -> Sub(acc[1], acc[2])
+                      [] k = 5 -> Sub(Sub(acc[1], acc[2]), acc[3])
+                      [] OTHER -> UsizeMax
+       IN Let(NumTok(v, p + 1, limit), LAMBDA n : IF ~n[1] THEN Bad(<<>>, v, p + 1) ELSE HdrFields(v, n[3], Append(acc, n[2]), ty))
+Header(v, tag, ty) == IF FixedEnd(v, 0, tag) # 3 THEN Bad(<<>>, v, 0) ELSE HdrFields(v, 3, <<>>, ty)
 
 \* ---- sections -----------------------------------------------------------------------------------
-\* n lines each holding one literal <= maxlit; with `def` the literal must be even and non-zero
+\* counts are digit sequences: n lines each holding one literal
 RECURSIVE LitLines(_, _, _, _, _, _)
 LitLines(v, p, n, maxlit, def, acc) ==
-  IF n = 0 THEN <<TRUE, acc, p>>
-  ELSE Let(NumLine(v, p), LAMBDA l :
-       IF ~l[1] \/ ~Leq(l[2], maxlit) \/ (def /\ (IsZero(l[2]) \/ ~IsEven(l[2]))) THEN <<FALSE, acc, p>>
-       ELSE LitLines(v, l[3], n - 1, maxlit, def, Append(acc, <<"lit", DStr(l[2])>>)))
+  IF IsZero(n) THEN <<TRUE, acc, p>>
+  ELSE Let(LitTok(v, p, maxlit, def), LAMBDA t :
+       IF ~t[1] THEN Bad(acc, v, p)
+       ELSE IF ~Is(v, t[3], NL) THEN Bad(acc, v, t[3])
+       ELSE LitLines(v, t[3] + 1, Pred(n), maxlit, def, Append(acc, <<"lit", DStr(t[2])>>)))
 
-\* latch lines.  ASCII: "state next[ init]"; binary: "next[ init]" with state = 2*(I+i+1)
+\* the rest of a latch line behind the next-state literal (which ends at q): "\n" | " init\n"
+\* <<TRUE, kind, next>> | Bad;  st: the latch's own literal
+LatchInit(v, q, maxlit, st, acc) ==
+  IF Is(v, q, NL) THEN <<TRUE, "0", q + 1>>
+  ELSE IF ~Is(v, q, SP) THEN Bad(acc, v, q)
+  ELSE Let(LitTok(v, q + 1, maxlit, FALSE), LAMBDA ini :
+       IF ~ini[1] \/ ~(ini[2] = <<0>> \/ ini[2] = <<1>> \/ ini[2] = st) THEN Bad(acc, v, q + 1)
+       ELSE IF ~Is(v, ini[3], NL) THEN Bad(acc, v, ini[3])
+       ELSE <<TRUE, IF ini[2] = <<0>> THEN "0" ELSE IF ini[2] = <<1>> THEN "1" ELSE "x", ini[3] + 1>>)
+
+\* latch lines.  ASCII: "state next[ init]"; binary: "next[ init]" with state = code
 RECURSIVE LatchLines(_, _, _, _, _, _, _)
 LatchLines(v, p, n, maxlit, binary, code, acc) ==
-  IF n = 0 THEN <<TRUE, acc, p>>
-  ELSE
-    Let(IF binary THEN <<OfNat(code), p>> ELSE Num(v, p), LAMBDA st :
-    IF st[1] = <<>> \/ ~Leq(st[1], maxlit) \/ IsZero(st[1]) \/ ~IsEven(st[1]) \/ (~binary /\ ~Is(v, st[2], SP))
-      THEN <<FALSE, acc, p>>
-    ELSE Let(Num(v, IF binary THEN p ELSE st[2] + 1), LAMBDA nx :
-    IF nx[1] = <<>> \/ ~Leq(nx[1], maxlit) THEN <<FALSE, acc, p>>
-    ELSE IF Is(v, nx[2], NL)
-      THEN LatchLines(v, nx[2] + 1, n - 1, maxlit, binary, code + 2,
-                      Append(acc, IF binary THEN <<"latch", DStr(nx[1]), "0">> ELSE <<"latch", DStr(st[1]), DStr(nx[1]), "0">>))
-    ELSE IF ~Is(v, nx[2], SP) THEN <<FALSE, acc, p>>
-    ELSE Let(NumLine(v, nx[2] + 1), LAMBDA ini :
-         IF ~ini[1] THEN <<FALSE, acc, p>>
-         ELSE Let(IF ini[2] = <<0>> THEN "0" ELSE IF ini[2] = <<1>> THEN "1" ELSE IF ini[2] = st[1] THEN "x" ELSE "bad", LAMBDA k :
-              IF k = "bad" THEN <<FALSE, acc, p>>
-              ELSE LatchLines(v, ini[3], n - 1, maxlit, binary, code + 2,
-                              Append(acc, IF binary THEN <<"latch", DStr(nx[1]), k>> ELSE <<"latch", DStr(st[1]), DStr(nx[1]), k>>))))))
+  IF IsZero(n) THEN <<TRUE, acc, p>>
+  ELSE IF binary
+    THEN Let(LitTok(v, p, maxlit, FALSE), LAMBDA nx :
+         IF ~nx[1] THEN Bad(acc, v, p)
+         ELSE Let(LatchInit(v, nx[3], maxlit, code, acc), LAMBDA k :
+              IF ~k[1] THEN k
+              ELSE LatchLines(v, k[3], Pred(n), maxlit, binary, Add(code, <<2>>), Append(acc, <<"latch", DStr(nx[2]), k[2]>>))))
+    ELSE Let(LitTok(v, p, maxlit, TRUE), LAMBDA st :
+         IF ~st[1] THEN Bad(acc, v, p)
+         ELSE IF ~Is(v, st[3], SP) THEN Bad(acc, v, st[3])
+         ELSE Let(LitTok(v, st[3] + 1, maxlit, FALSE), LAMBDA nx :
+              IF ~nx[1] THEN Bad(acc, v, st[3] + 1)
+              ELSE Let(LatchInit(v, nx[3], maxlit, st[2], acc), LAMBDA k :
+                   IF ~k[1] THEN k
+                   ELSE LatchLines(v, k[3], Pred(n), maxlit, binary, code,
+                                   Append(acc, <<"latch", DStr(st[2]), DStr(nx[2]), k[2]>>)))))
 
-\* justice sizes: n count lines; returns also their sum (as native int, -1 if not small)
+\* justice sizes: n count lines whose sum has to fit usize; <<TRUE, acc, next, total>>
 RECURSIVE SizeLines(_, _, _, _, _)
 SizeLines(v, p, n, acc, total) ==
-  IF n = 0 THEN <<TRUE, acc, p, total>>
-  ELSE Let(NumLine(v, p), LAMBDA l :
-       IF ~l[1] \/ Small(l[2]) < 0 THEN <<FALSE, acc, p, total>>
-       ELSE SizeLines(v, l[3], n - 1, Append(acc, <<"size", DStr(l[2])>>), total + Small(l[2])))
+  IF IsZero(n) THEN <<TRUE, acc, p, total>>
+  ELSE Let(NumTok(v, p, Sub(UsizeMax, total)), LAMBDA t :
+       IF ~t[1] THEN Bad(acc, v, p)
+       ELSE IF ~Is(v, t[3], NL) THEN Bad(acc, v, t[3])
+       ELSE SizeLines(v, t[3] + 1, Pred(n), Append(acc, <<"size", DStr(t[2])>>), Add(total, t[2])))
 
 \* ASCII and-gates "out in0 in1"
 RECURSIVE AndLines(_, _, _, _, _)
 AndLines(v, p, n, maxlit, acc) ==
-  IF n = 0 THEN <<TRUE, acc, p>>
-  ELSE Let(Num(v, p), LAMBDA o :
-       IF o[1] = <<>> \/ ~Leq(o[1], maxlit) \/ IsZero(o[1]) \/ ~IsEven(o[1]) \/ ~Is(v, o[2], SP) THEN <<FALSE, acc, p>>
-       ELSE Let(Num(v, o[2] + 1), LAMBDA a :
-       IF a[1] = <<>> \/ ~Leq(a[1], maxlit) \/ ~Is(v, a[2], SP) THEN <<FALSE, acc, p>>
-       ELSE Let(NumLine(v, a[2] + 1), LAMBDA b :
-       IF ~b[1] \/ ~Leq(b[2], maxlit) THEN <<FALSE, acc, p>>
-       ELSE AndLines(v, b[3], n - 1, maxlit, Append(acc, <<"and", DStr(o[1]), DStr(a[1]), DStr(b[2])>>)))))
+  IF IsZero(n) THEN <<TRUE, acc, p>>
+  ELSE Let(LitTok(v, p, maxlit, TRUE), LAMBDA o :
+       IF ~o[1] THEN Bad(acc, v, p)
+       ELSE IF ~Is(v, o[3], SP) THEN Bad(acc, v, o[3])
+       ELSE Let(LitTok(v, o[3] + 1, maxlit, FALSE), LAMBDA a :
+       IF ~a[1] THEN Bad(acc, v, o[3] + 1)
+       ELSE IF ~Is(v, a[3], SP) THEN Bad(acc, v, a[3])
+       ELSE Let(LitTok(v, a[3] + 1, maxlit, FALSE), LAMBDA b :
+       IF ~b[1] THEN Bad(acc, v, a[3] + 1)
+       ELSE IF ~Is(v, b[3], NL) THEN Bad(acc, v, b[3])
+       ELSE AndLines(v, b[3] + 1, Pred(n), maxlit, Append(acc, <<"and", DStr(o[2]), DStr(a[2]), DStr(b[2])>>)))))
 
-\* one 7-bit encoded number at p: <<ok, digits, next>>
+\* one 7-bit encoded number at p: <<TRUE, digits, next>>; the last byte of the code (None if the input ends first)
 RECURSIVE VarintEnd(_, _)
 VarintEnd(v, p) == IF At(v, p) = None THEN None ELSE IF At(v, p) < 128 THEN p ELSE VarintEnd(v, p + 1)
 RECURSIVE VarintVal(_, _, _, _)
 \* bytes from `hi` down to `lo`: acc*128 + (b mod 128)
 VarintVal(v, lo, hi, accLSF) ==
   IF hi < lo THEN accLSF ELSE VarintVal(v, lo, hi - 1, MulAddLSF(accLSF, 128, v[hi + 1] % 128))
+MaxVarintLen == 8
 Varint(v, p) ==
   Let(VarintEnd(v, p), LAMBDA e :
-    IF e = None THEN <<FALSE, <<>>, p>> ELSE <<TRUE, Norm(Rev(VarintVal(v, p, e, <<>>))), e + 1>>)
+    IF e = None \/ e - p + 1 > MaxVarintLen THEN <<FALSE, <<>>, p>> ELSE <<TRUE, Norm(Rev(VarintVal(v, p, e, <<>>))), e + 1>>)
+\* the span of a bad code at p: its bytes (up to the end of the input)
+BadCode(acc, v, p) == <<FALSE, acc, p, LET e == VarintEnd(v, p) IN IF e = None THEN Len(v) ELSE e + 1>>
 
 \* binary and-gates: delta0 = out - in0, delta1 = in0 - in1
 RECURSIVE AndDeltas(_, _, _, _, _)
 AndDeltas(v, p, n, code, acc) ==
-  IF n = 0 THEN <<TRUE, acc, p>>
+  IF IsZero(n) THEN <<TRUE, acc, p>>
   ELSE Let(Varint(v, p), LAMBDA d0 :
-       IF ~d0[1] \/ ~Leq(d0[2], OfNat(code)) THEN <<FALSE, acc, p>>
-       ELSE Let(Sub(OfNat(code), d0[2]), LAMBDA in0 :
+       IF ~d0[1] \/ ~Leq(d0[2], code) THEN BadCode(acc, v, p)
+       ELSE Let(Sub(code, d0[2]), LAMBDA in0 :
        Let(Varint(v, d0[3]), LAMBDA d1 :
-       IF ~d1[1] \/ ~Leq(d1[2], in0) THEN <<FALSE, acc, p>>
-       ELSE AndDeltas(v, d1[3], n - 1, code + 2, Append(acc, <<"and", DStr(in0), DStr(Sub(in0, d1[2]))>>)))))
+       IF ~d1[1] \/ ~Leq(d1[2], in0) THEN BadCode(acc, v, d0[3])
+       ELSE AndDeltas(v, d1[3], Pred(n), Add(code, <<2>>), Append(acc, <<"and", DStr(in0), DStr(Sub(in0, d1[2]))>>)))))
 
-\* symbol table: lines "<k><index> <name>\n" with k in ilobcjf and index < the count of that kind
-SymKinds == <<105, 108, 111, 98, 99, 106, 102>>          \* i l o b c j f
+\* ---- UTF-8 (as std::str::from_utf8): the length of the longest valid prefix of v[from+1 .. to] --------
+Cont(b) == b # None /\ b >= 128 /\ b <= 191
+RECURSIVE Utf8Valid(_, _, _)
+Utf8Valid(v, p, to) ==
+  IF p >= to THEN p
+  ELSE LET b == v[p + 1]
+           b1 == IF p + 1 < to THEN v[p + 2] ELSE None
+           b2 == IF p + 2 < to THEN v[p + 3] ELSE None
+           b3 == IF p + 3 < to THEN v[p + 4] ELSE None
+       IN IF b < 128 THEN Utf8Valid(v, p + 1, to)
+          ELSE IF b >= 194 /\ b <= 223 THEN (IF Cont(b1) THEN Utf8Valid(v, p + 2, to) ELSE p)
+          ELSE IF b >= 224 /\ b <= 239
+            THEN (IF Cont(b1) /\ Cont(b2) /\ (b = 224 => b1 >= 160) /\ (b = 237 => b1 <= 159) THEN Utf8Valid(v, p + 3, to) ELSE p)
+          ELSE IF b >= 240 /\ b <= 244
+            THEN (IF Cont(b1) /\ Cont(b2) /\ Cont(b3) /\ (b = 240 => b1 >= 144) /\ (b = 244 => b1 <= 143) THEN Utf8Valid(v, p + 4, to) ELSE p)
+          ELSE p
+
+\* symbol table: lines "<k><index> <name>\n" with k in ilobcjf, a kind whose count is zero is no symbol, and
+\* index < the count of that kind; the name is valid UTF-8
 SymNames == <<"i", "l", "o", "b", "c", "j", "f">>
 KindIdx(b) == IF b = 105 THEN 1 ELSE IF b = 108 THEN 2 ELSE IF b = 111 THEN 3 ELSE IF b = 98 THEN 4
               ELSE IF b = 99 THEN 5 ELSE IF b = 106 THEN 6 ELSE IF b = 102 THEN 7 ELSE 0
 RECURSIVE Symbols(_, _, _, _)
 Symbols(v, p, counts, acc) ==
   LET k == KindIdx(At(v, p)) IN
-  IF k = 0 \/ (k = 5 /\ Is(v, p + 1, NL)) THEN <<TRUE, acc, p>>         \* "c\n" starts the comment
-  ELSE Let(Num(v, p + 1), LAMBDA ix :
-       IF ix[1] = <<>> \/ ~Is(v, ix[2], SP) \/ Small(ix[1]) < 0 \/ Small(ix[1]) >= counts[k] THEN <<FALSE, acc, p>>
-       ELSE Let(NextNlPos(v, ix[2] + 1), LAMBDA e :
-            IF At(v, e) = None THEN <<FALSE, acc, p>>
+  IF k = 0 \/ IsZero(counts[k]) \/ (k = 5 /\ Is(v, p + 1, NL)) THEN <<TRUE, acc, p>>         \* "c\n" starts the comment
+  ELSE Let(NumTok(v, p + 1, Pred(counts[k])), LAMBDA ix :
+       IF ~ix[1] THEN Bad(acc, v, p)
+       ELSE IF ~Is(v, ix[3], SP) THEN <<FALSE, acc, p, RunEnd(v, ix[3])>>
+       ELSE LET e == NextNlPos(v, ix[3] + 1)
+                u == Utf8Valid(v, ix[3] + 1, e) IN
+            IF At(v, e) = None THEN <<FALSE, acc, e, e>>
+            ELSE IF u < e THEN <<FALSE, acc, u, u>>
             ELSE Symbols(v, e + 1, counts,
-                         Append(acc, <<"sym", SymNames[k], DStr(ix[1]), SubSeq(v, ix[2] + 2, e)>>))))
+                         Append(acc, <<"sym", SymNames[k], DStr(ix[2]), SubSeq(v, ix[3] + 2, e)>>)))
 
-\* optional comment: "c\n" then everything up to a final newline
+\* optional comment: "c\n" then valid UTF-8 up to a final newline
 Comment(v, p) ==
   IF p = Len(v) THEN <<TRUE, <<>>, p>>
-  ELSE IF Is(v, p, 99) /\ Is(v, p + 1, NL)
-    THEN IF p + 2 = Len(v) THEN <<TRUE, <<<<"comment", <<>>>>>>, Len(v)>>
-         ELSE IF v[Len(v)] = NL THEN <<TRUE, <<<<"comment", SubSeq(v, p + 3, Len(v) - 1)>>>>, Len(v)>> ELSE <<FALSE, <<>>, p>>
-    ELSE <<FALSE, <<>>, p>>
+  ELSE IF ~Is(v, p, 99) THEN Bad(<<>>, v, p)
+  ELSE IF ~Is(v, p + 1, NL) THEN <<FALSE, <<>>, p, RunEnd(v, p)>>
+  ELSE LET u == Utf8Valid(v, p + 2, Len(v)) IN
+       IF u < Len(v) THEN <<FALSE, <<>>, u, u>>
+       ELSE IF p + 2 = Len(v) THEN <<TRUE, <<<<"comment", <<>>>>>>, Len(v)>>
+       ELSE IF v[Len(v)] = NL THEN <<TRUE, <<<<"comment", SubSeq(v, p + 3, Len(v) - 1)>>>>, Len(v)>>
+       ELSE <<FALSE, <<>>, Len(v), Len(v)>>
 
 \* ---- whole file ---------------------------------------------------------------------------------
-Read(v, binary) ==
-  Let(Header(v, IF binary THEN <<97, 105, 103>> ELSE <<97, 97, 103>>), LAMBDA h :
-  IF ~h[1] THEN <<"bad", <<>>>>
+\* the sections in file order; `sec` returns <<TRUE, items, next(, ..)>> or <<FALSE, items, lo, hi>>
+Fail(done, r) == <<"bad", done \o r[2], r[3], r[4]>>
+ReadLoc(v, binary, ty) ==
+  Let(Header(v, IF binary THEN <<97, 105, 103>> ELSE <<97, 97, 103>>, ty), LAMBDA h :
+  IF ~h[1] THEN Fail(<<>>, h)
   ELSE
   LET f == h[2]
-      M == f[1]
-      cnt == [i \in 1..9 |-> Small(f[i])]
-      maxlit == TwicePlus1(M)
+      maxlit == TwicePlus1(f[1])
       hdr == <<<<"hdr", DStr(f[1]), DStr(f[2]), DStr(f[3]), DStr(f[4]), DStr(f[5]), DStr(f[6]), DStr(f[7]), DStr(f[8]), DStr(f[9])>>>>
   IN
-  \* counts that are not small cannot be backed by any input we handle; I + L + A <= M
-  IF \E i \in 2..9 : cnt[i] < 0 THEN <<"bad", hdr>>
-  ELSE IF ~Leq(OfNat(cnt[2] + cnt[3] + cnt[5]), M) THEN <<"bad", hdr>>
-  ELSE
-  Let(IF binary THEN <<TRUE, <<>>, h[3]>> ELSE LitLines(v, h[3], cnt[2], maxlit, TRUE, <<>>), LAMBDA ins :
-  IF ~ins[1] THEN <<"bad", hdr \o ins[2]>> ELSE
-  Let(LatchLines(v, ins[3], cnt[3], maxlit, binary, 2 * (cnt[2] + 1), <<>>), LAMBDA la :
-  IF ~la[1] THEN <<"bad", hdr \o ins[2] \o la[2]>> ELSE
-  Let(LitLines(v, la[3], cnt[4], maxlit, FALSE, <<>>), LAMBDA outs :
-  IF ~outs[1] THEN <<"bad", hdr \o ins[2] \o la[2] \o outs[2]>> ELSE
-  Let(LitLines(v, outs[3], cnt[6], maxlit, FALSE, <<>>), LAMBDA bad :
-  IF ~bad[1] THEN <<"bad", hdr>> ELSE
-  Let(LitLines(v, bad[3], cnt[7], maxlit, FALSE, <<>>), LAMBDA con :
-  IF ~con[1] THEN <<"bad", hdr>> ELSE
-  Let(SizeLines(v, con[3], cnt[8], <<>>, 0), LAMBDA js :
-  IF ~js[1] THEN <<"bad", hdr>> ELSE
+  Let(IF binary THEN <<TRUE, <<>>, h[3]>> ELSE LitLines(v, h[3], f[2], maxlit, TRUE, <<>>), LAMBDA ins :
+  IF ~ins[1] THEN Fail(hdr, ins) ELSE
+  Let(hdr \o ins[2], LAMBDA d1 :
+  Let(LatchLines(v, ins[3], f[3], maxlit, binary, Twice(Add(f[2], <<1>>)), <<>>), LAMBDA la :
+  IF ~la[1] THEN Fail(d1, la) ELSE
+  Let(d1 \o la[2], LAMBDA d2 :
+  Let(LitLines(v, la[3], f[4], maxlit, FALSE, <<>>), LAMBDA outs :
+  IF ~outs[1] THEN Fail(d2, outs) ELSE
+  Let(d2 \o outs[2], LAMBDA d3 :
+  Let(LitLines(v, outs[3], f[6], maxlit, FALSE, <<>>), LAMBDA bad :
+  IF ~bad[1] THEN Fail(d3, bad) ELSE
+  Let(d3 \o bad[2], LAMBDA d4 :
+  Let(LitLines(v, bad[3], f[7], maxlit, FALSE, <<>>), LAMBDA con :
+  IF ~con[1] THEN Fail(d4, con) ELSE
+  Let(d4 \o con[2], LAMBDA d5 :
+  Let(SizeLines(v, con[3], f[8], <<>>, <<0>>), LAMBDA js :
+  IF ~js[1] THEN Fail(d5, js) ELSE
+  Let(d5 \o js[2], LAMBDA d6 :
   Let(LitLines(v, js[3], js[4], maxlit, FALSE, <<>>), LAMBDA jl :
-  IF ~jl[1] THEN <<"bad", hdr>> ELSE
-  Let(LitLines(v, jl[3], cnt[9], maxlit, FALSE, <<>>), LAMBDA fair :
-  IF ~fair[1] THEN <<"bad", hdr>> ELSE
-  Let(IF binary THEN AndDeltas(v, fair[3], cnt[5], 2 * (cnt[2] + cnt[3] + 1), <<>>)
-               ELSE AndLines(v, fair[3], cnt[5], maxlit, <<>>), LAMBDA ands :
-  IF ~ands[1] THEN <<"bad", hdr>> ELSE
-  Let(Symbols(v, ands[3], <<cnt[2], cnt[3], cnt[4], cnt[6], cnt[7], cnt[8], cnt[9]>>, <<>>), LAMBDA sy :
-  IF ~sy[1] THEN <<"bad", hdr>> ELSE
+  IF ~jl[1] THEN Fail(d6, jl) ELSE
+  Let(d6 \o jl[2], LAMBDA d7 :
+  Let(LitLines(v, jl[3], f[9], maxlit, FALSE, <<>>), LAMBDA fair :
+  IF ~fair[1] THEN Fail(d7, fair) ELSE
+  Let(d7 \o fair[2], LAMBDA d8 :
+  Let(IF binary THEN AndDeltas(v, fair[3], f[5], Twice(Add(Add(f[2], f[3]), <<1>>)), <<>>)
+               ELSE AndLines(v, fair[3], f[5], maxlit, <<>>), LAMBDA ands :
+  IF ~ands[1] THEN Fail(d8, ands) ELSE
+  Let(d8 \o ands[2], LAMBDA d9 :
+  Let(Symbols(v, ands[3], <<f[2], f[3], f[4], f[6], f[7], f[8], f[9]>>, <<>>), LAMBDA sy :
+  IF ~sy[1] THEN Fail(d9, sy) ELSE
+  Let(d9 \o sy[2], LAMBDA d10 :
   Let(Comment(v, sy[3]), LAMBDA co :
-  IF ~co[1] THEN <<"bad", hdr>>
-  ELSE <<"ok", hdr \o ins[2] \o la[2] \o outs[2] \o bad[2] \o con[2] \o js[2] \o jl[2] \o fair[2] \o ands[2] \o sy[2] \o co[2]>>
-  ))))))))))))
+  IF ~co[1] THEN Fail(d10, co)
+  ELSE <<"ok", d10 \o co[2]>>
+  ))))))))))))))))))))))
+
+\* the reading without locations, for a parser of the widest literal type
+Read(v, binary) == Let(ReadLoc(v, binary, "usize"), LAMBDA r : <<r[1], r[2]>>)
 =============================================================================
